@@ -83,6 +83,10 @@ def _cases(tier, seed):
                                   ('project-version = 1979-05-27', '--project-version', 'projectversion', '1979-05-27'), ('project-name = 1e3', '--project-name', 'projectname', '1000.0'),
                                   ('verbose = 2', '--verbose', 'verbosity', None), ('project-name = -7', '--project-name', 'projectname', '-7')):
         yield {'special': 'toml-scalar', 'text': text, 'flag': flag, 'dest': dest, 'cli': cli}
+    # unknown keys whose value is a table (a dotted-key typo, an inline table, a sub-table) are unknown keys like any other
+    for text, key in (('html.output = "docs/api"', 'html'), ('sidebar = { expand-depth = 3 }', 'sidebar'), ('project-name = "named"\n[tool.pydoctor.sidebar]\nexpand-depth = 3', 'sidebar'),
+                      ('plain-unknown = 1', 'plain-unknown')):
+        yield {'special': 'toml-unknown-table', 'text': text, 'key': key}
     # keys are case-sensitive in TOML: a key that differs from an option only by case is an unknown key
     for k in ('Project-Name', 'DOCFORMAT', 'Warnings-As-Errors'):
         yield {'special': 'unknown-key', 'fmt': 'toml', 'key': k}
@@ -200,6 +204,16 @@ def _check(case):
             if got != case['want']:
                 return {'observed': f'pydoctor.ini line {case["text"]!r} is read as {got!r}', 'required': f'{case["want"]!r} (INI rules)',
                         'class': 'ini-as-toml', 'ini_as_toml': True}
+            return None
+        if case.get('special') == 'toml-unknown-table':
+            with open(os.path.join(d1, 'pyproject.toml'), 'w') as fh:
+                fh.write('[tool.pydoctor]\n' + case['text'] + '\n')
+            o, w = _from_args([], d1)
+            if isinstance(o, tuple):
+                return {'observed': f'pyproject.toml with {case["text"]!r} aborted: {o}', 'required': 'warned about, not aborting', 'class': 'toml-table-abort'}
+            if not any(case['key'] in str(x.message) for x in w):
+                return {'observed': f'no warning for the unknown key {case["key"]!r} ({case["text"]!r}); warnings: {[str(x.message)[:60] for x in w]}', 'required': 'a warning',
+                        'class': 'toml-table-silent'}
             return None
         if case.get('special') == 'toml-scalar':
             with open(os.path.join(d1, 'pyproject.toml'), 'w') as fh:
